@@ -164,10 +164,21 @@ type tierPlan struct {
 	apiBelow           float64 // configurations below this bound are also enumerated through the Go API directly
 }
 
+// dfsCap bounds one complete enumeration: on a tree whose Send is nondeterministic under a
+// fixed schedule (Go's select) diverged replays make the DFS revisit subtrees, which without
+// a cap multiplied the cost of the large configurations; a capped job is not reported complete.
+func dfsCap(c config, plan tierPlan) int {
+	n := int(c.interleavingBound()*1.2) + 1000
+	if n > plan.fullCap {
+		n = plan.fullCap
+	}
+	return n
+}
+
 func layer1Jobs(e *lib.Env) []job {
 	plan := tierPlan{maxP: 2, maxC: 2, maxOps: 2, fullBelow: 60000, fullCap: 120000, pbBound: 2, pbCap: 3000, randWalks: 200, parReps: 1000, apiBelow: 4000}
 	if !e.Quick() {
-		plan = tierPlan{maxP: 3, maxC: 3, maxOps: 3, fullBelow: 2000000, fullCap: 4000000, pbBound: 2, pbCap: 8000, randWalks: 500, parReps: 4000, apiBelow: 60000}
+		plan = tierPlan{maxP: 3, maxC: 3, maxOps: 3, fullBelow: 1000000, fullCap: 4000000, pbBound: 2, pbCap: 5000, randWalks: 500, parReps: 4000, apiBelow: 60000}
 	}
 	var jobs []job
 	seedRng := e.Rand("layer1")
@@ -199,10 +210,10 @@ func layer1Jobs(e *lib.Env) []job {
 							if cfg.interleavingBound() <= plan.apiBelow {
 								api := cfg
 								api.Via = "api"
-								jobs = append(jobs, job{ID: api.String() + " dfs", Cfg: api, Mode: "dfs", Max: plan.fullCap})
+								jobs = append(jobs, job{ID: api.String() + " dfs", Cfg: api, Mode: "dfs", Max: dfsCap(api, plan)})
 							}
 							if cfg.interleavingBound() <= plan.fullBelow {
-								jobs = append(jobs, job{ID: id + " dfs", Cfg: cfg, Mode: "dfs", Max: plan.fullCap})
+								jobs = append(jobs, job{ID: id + " dfs", Cfg: cfg, Mode: "dfs", Max: dfsCap(cfg, plan)})
 							} else {
 								jobs = append(jobs, job{ID: id + " pb", Cfg: cfg, Mode: "pb", Bound: plan.pbBound, Max: plan.pbCap})
 								jobs = append(jobs, job{ID: id + " rand", Cfg: cfg, Mode: "rand", Max: plan.randWalks, Seed: seedRng.Int63(), Sticky: 60})
